@@ -85,9 +85,9 @@ theorem wk_runCb {p : Pool} {t : Nat} (h : WK (ET t) p) (tk : PTask) (isEnd : Bo
     ((p.runCb t tk isEnd).2 = false → WK (ET t) (p.runCb t tk isEnd).1) := by
   unfold runCb
   split
-  · exact ⟨fun e => by cases e, fun _ => h⟩
-  · exact ⟨fun e => by cases e, fun _ => wk_logEv (wk_cbBegin h tk isEnd) _⟩
-  · exact ⟨fun e => by cases e, fun _ => wk_modTask_ex (wk_logEv (wk_cbBegin h tk isEnd) _) t _ rfl⟩
+  · exact ⟨fun e => (by cases e), fun _ => h⟩
+  · exact ⟨fun e => (by cases e), fun _ => wk_logEv (wk_cbBegin h tk isEnd) _⟩
+  · exact ⟨fun e => (by cases e), fun _ => wk_modTask_ex (wk_logEv (wk_cbBegin h tk isEnd) _) t _ rfl⟩
   · refine ⟨fun _ => wk0_suspendTask (wk_cbBegin h tk isEnd) _ ?_, fun e => by cases e⟩
     cases isEnd
     · exact Or.inr (Or.inl rfl)
@@ -239,7 +239,7 @@ theorem wk0_stepTask {p : Pool} (h : WK0 p) (t : Nat) : WK0 (p.stepTask t) := by
       have h1 : WK (ET t) (p.modTask t fun k => { k with sched := false }) :=
         wk_modTask_ex (wk_enter_task h t) t _ rfl
       have hk1 : (p.modTask t fun k => { k with sched := false }).tasks[t]? = some { tk with sched := false } := by
-        simp [modTask, List.getElem?_modify, htk]
+        simp [modTask, htk]
       have htg := h.tg t tk htk (fun f => f)
       split
       · exact wk0_stepCreated h1 tk
@@ -253,6 +253,246 @@ theorem wk0_stepTask {p : Pool} (h : WK0 p) (t : Nat) : WK0 (p.stepTask t) := by
         rw [hk1] at hk'; cases hk'
         have ho := htg.2.2 hph
         exact ⟨fun hq => by simp [PTask.quiet, ho] at hq, htg.2.1, fun _ => ho⟩
+
+/-! ### spawners: leaving and entering the exempt mode -/
+
+theorem nodup_of_length_le_one {α} (l : List α) (h : l.length ≤ 1) : l.Nodup := by
+  match l, h with
+  | [], _ => exact List.nodup_nil
+  | [a], _ => simp
+  | _ :: _ :: _, h => simp only [List.length_cons] at h; omega
+
+theorem wk_modReq_sem (p : Pool) (m : Nat) (f : Req → Req) : (p.modReq m f).sem = p.sem := rfl
+
+theorem modReq_get_ne (p : Pool) (m : Nat) (f : Req → Req) (i : Nat) (h : i ≠ m) :
+    (p.modReq m f).reqs[i]? = p.reqs[i]? := by
+  exact List.getElem?_modify_ne f p.reqs (Ne.symm h)
+
+theorem modReq_get_self (p : Pool) (m : Nat) (f : Req → Req) (r : Req) (hp : p.reqs[m]? = some r) :
+    (p.modReq m f).reqs[m]? = some (f r) := by
+  simp [modReq, hp]
+
+/-- the end of a spawner's step: `q` is `p` up to the spawner's own record and waiter entries of its own appended to
+the pool's queue, and the spawner satisfies its clauses again -/
+theorem wk0_close_spawner {p : Pool} {m : Nat} (h : WK (ES m) p) (q : Pool) (ws' : List Waiter) (r' : Req)
+    (ht : q.tasks = p.tasks) (hs : q.sem.waiters = p.sem.waiters ++ ws')
+    (hne : ∀ i, i ≠ m → q.reqs[i]? = p.reqs[i]?)
+    (hm : q.reqs[m]? = some r')
+    (c_rs : r'.outcome = none → (r'.frame = .notStarted → r'.sched = true) ∧ r'.frame ≠ .running ∧ r'.frame ≠ .done)
+    (c_pn : ws'.length ≤ 1)
+    (c_pw : ∀ w ∈ ws', w.owner = m ∧ r'.frame = .waitRoom ∧ r'.outcome = none ∧ (w.st ≠ .pending → r'.sched = true))
+    (c_pe : r'.outcome = none → r'.frame = .waitRoom → ws' ≠ [])
+    (c_mn : r'.mapSem.waiters.length ≤ 1)
+    (c_mw : ∀ w ∈ r'.mapSem.waiters, w.owner = m ∧ r'.frame = .waitMapSem ∧ r'.outcome = none ∧
+      (w.st ≠ .pending → r'.sched = true))
+    (c_me : r'.outcome = none → r'.frame = .waitMapSem → r'.mapSem.waiters ≠ [])
+    (c_od : r'.outcome.isSome = true → r'.frame = .done) : WK0 q := by
+  have hE : ∀ i, i ≠ m → ¬ (Ref.spawner i = Ref.spawner m) := fun i c e => c (by cases e; rfl)
+  have hnm : m ∉ owners p.sem.waiters := (h.ce m rfl).1
+  refine { tq := ?_, tw := ?_, rs := ?_, pn := ?_, pw := ?_, pe := ?_, mn := ?_, mw := ?_, me := ?_, od := ?_,
+           ce := fun _ f => f.elim, alive := fun _ f => f.elim }
+  · rw [ht]; exact fun i k hik _ => h.tq i k hik (by simp)
+  · rw [ht]; exact fun i k hik _ => h.tw i k hik (by simp)
+  · intro i r1 hq _ ho
+    by_cases c : i = m
+    · subst c; rw [hm] at hq; cases hq; exact c_rs ho
+    · rw [hne i c] at hq; exact h.rs i r1 hq (hE i c) ho
+  · rw [hs, owners_append, List.nodup_append]
+    refine ⟨h.pn, nodup_of_length_le_one _ (by rw [owners_length]; exact c_pn), ?_⟩
+    intro a ha b hb e
+    obtain ⟨w, hw, hwo⟩ := mem_owners.mp hb
+    rw [(c_pw w hw).1] at hwo
+    rw [e, ← hwo] at ha
+    exact hnm ha
+  · intro w hw
+    rw [hs, List.mem_append] at hw
+    rcases hw with hw | hw
+    · obtain ⟨r1, hp1, hc⟩ := h.pw w hw
+      have c : w.owner ≠ m := fun e => hnm (mem_owners.mpr ⟨w, hw, e⟩)
+      exact ⟨r1, by rw [hne _ c]; exact hp1, fun _ => hc (hE _ c)⟩
+    · obtain ⟨a, b⟩ := c_pw w hw
+      exact ⟨r', by rw [a]; exact hm, fun _ => b⟩
+  · intro i r1 hq _ ho hf
+    rw [hs, owners_append, List.mem_append]
+    by_cases c : i = m
+    · subst c; rw [hm] at hq; cases hq
+      right
+      cases hws : ws' with
+      | nil => exact absurd hws (c_pe ho hf)
+      | cons w ws =>
+        have := (c_pw w (by rw [hws]; exact List.mem_cons_self)).1
+        rw [owners_cons, this]; exact List.mem_cons_self
+    · rw [hne i c] at hq; left; exact h.pe i r1 hq (hE i c) ho hf
+  · intro i r1 hq
+    by_cases c : i = m
+    · subst c; rw [hm] at hq; cases hq; exact c_mn
+    · rw [hne i c] at hq; exact h.mn i r1 hq
+  · intro i r1 hq w hw
+    by_cases c : i = m
+    · subst c; rw [hm] at hq; cases hq
+      obtain ⟨a, b⟩ := c_mw w hw
+      exact ⟨a, fun _ => b⟩
+    · rw [hne i c] at hq
+      obtain ⟨a, b⟩ := h.mw i r1 hq w hw
+      exact ⟨a, fun _ => b (hE i c)⟩
+  · intro i r1 hq _ ho hf
+    by_cases c : i = m
+    · subst c; rw [hm] at hq; cases hq; exact c_me ho hf
+    · rw [hne i c] at hq; exact h.me i r1 hq (hE i c) ho hf
+  · intro i r1 hq _ ho
+    by_cases c : i = m
+    · subst c; rw [hm] at hq; cases hq; exact c_od ho
+    · rw [hne i c] at hq; exact h.od i r1 hq (hE i c) ho
+
+/-- the start of a spawner's step: its waiter entry (if any) is gone from the pool's queue, nobody waits on its own
+semaphore, its asyncio Task is not done -/
+theorem wk_enter_gen {p0 : Pool} {m : Nat} (h0 : WK0 p0) (q : Pool) (ht : q.tasks = p0.tasks)
+    (hne : ∀ i, i ≠ m → q.reqs[i]? = p0.reqs[i]?)
+    (hsub : q.sem.waiters.Sublist p0.sem.waiters) (hnm : m ∉ owners q.sem.waiters)
+    (hoth : ∀ x ∈ owners p0.sem.waiters, x ≠ m → x ∈ owners q.sem.waiters)
+    (hm : ∃ r', q.reqs[m]? = some r' ∧ r'.mapSem.waiters = [] ∧ r'.outcome = none) : WK (ES m) q := by
+  obtain ⟨r', hq', hw', ho'⟩ := hm
+  have hE : ∀ i, ¬ (Ref.spawner i = Ref.spawner m) → i ≠ m := fun i c e => c (by rw [e])
+  refine { tq := ?_, tw := ?_, rs := ?_, pn := ?_, pw := ?_, pe := ?_, mn := ?_, mw := ?_, me := ?_, od := ?_,
+           ce := ?_, alive := ?_ }
+  · rw [ht]; exact fun i k hik _ => h0.tq i k hik id
+  · rw [ht]; exact fun i k hik _ => h0.tw i k hik id
+  · intro i r1 hq c ho
+    rw [hne i (hE i c)] at hq; exact h0.rs i r1 hq id ho
+  · exact List.Nodup.sublist (owners_sublist hsub) h0.pn
+  · intro w hw
+    have c : w.owner ≠ m := fun e => hnm (mem_owners.mpr ⟨w, hw, e⟩)
+    obtain ⟨r1, hp1, hc⟩ := h0.pw w (hsub.subset hw)
+    exact ⟨r1, by rw [hne _ c]; exact hp1, fun _ => hc id⟩
+  · intro i r1 hq c ho hf
+    rw [hne i (hE i c)] at hq
+    exact hoth i (h0.pe i r1 hq id ho hf) (hE i c)
+  · intro i r1 hq
+    by_cases c : i = m
+    · subst c; rw [hq'] at hq; cases hq; rw [hw']; simp
+    · rw [hne i c] at hq; exact h0.mn i r1 hq
+  · intro i r1 hq w hw
+    by_cases c : i = m
+    · subst c; rw [hq'] at hq; cases hq; rw [hw'] at hw; cases hw
+    · rw [hne i c] at hq
+      obtain ⟨a, b⟩ := h0.mw i r1 hq w hw
+      exact ⟨a, fun _ => b id⟩
+  · intro i r1 hq c ho hf
+    rw [hne i (hE i c)] at hq; exact h0.me i r1 hq id ho hf
+  · intro i r1 hq c ho
+    rw [hne i (hE i c)] at hq; exact h0.od i r1 hq id ho
+  · intro i hi
+    cases hi
+    exact ⟨hnm, fun r1 hq => by rw [hq'] at hq; cases hq; exact hw'⟩
+  · intro i hi
+    cases hi
+    exact ⟨r', hq', ho'⟩
+
+/-- a step of a spawner that only clears its flag: nothing was waiting for it -/
+theorem wk0_clearSched {p0 : Pool} {m : Nat} {r : Req} (h0 : WK0 p0) (hp : p0.reqs[m]? = some r)
+    (h1 : r.frame ≠ .notStarted) (h2 : ∀ w ∈ p0.sem.waiters, w.owner = m → w.st = .pending)
+    (h3 : ∀ w ∈ r.mapSem.waiters, w.st = .pending) : WK0 (p0.modReq m fun x => { x with sched := false }) := by
+  refine wk_reqs h0 _ rfl rfl (by simp [modReq]) ?_ ?_
+  · intro i r1 r' hp1 hq
+    have e := modify_some hp1 hq
+    by_cases c : m = i
+    · subst c; rw [if_pos rfl] at e; subst e
+      rw [hp] at hp1; cases hp1
+      exact ⟨rfl, rfl, fun _ => ⟨rfl, fun _ hf => absurd hf h1, fun w' hw' hn => absurd (h3 w' hw') hn⟩⟩
+    · rw [if_neg c] at e; subst e
+      exact ⟨rfl, rfl, fun hE => ⟨rfl, (h0.req_ok hp1 hE).1, (h0.req_ok hp1 hE).2⟩⟩
+  · intro w' hw' hE hn r' hq
+    by_cases c : w'.owner = m
+    · exact absurd (h2 w' hw' c) hn
+    · rw [modReq_get_ne _ _ _ _ c] at hq
+      exact h0.pw_ok hw' hE hn hq
+
+/-! ### spawners: the walk -/
+
+theorem wk0_finishMeta {p : Pool} {m : Nat} (h : WK (ES m) p) (o : Outcome) : WK0 (p.finishMeta m o) := by
+  obtain ⟨r, hp, _⟩ := h.alive m rfl
+  have hw := (h.ce m rfl).2 r hp
+  unfold finishMeta
+  rw [hp]
+  simp only
+  refine wk_emitChildren (wk0_close_spawner h _ [] _ (by rfl) (by exact (List.append_nil _).symm)
+    (by exact fun i hi => modReq_get_ne _ _ _ _ hi) (by exact modReq_get_self _ _ _ r hp) ?_ ?_ ?_ ?_ ?_ ?_ ?_ ?_) _
+  · intro ho; cases ho
+  · simp
+  · intro w hw'; cases hw'
+  · intro ho; cases ho
+  · rw [hw]; simp
+  · intro w hw'; rw [hw] at hw'; cases hw'
+  · intro ho; cases ho
+  · intro _; rfl
+
+theorem wk0_waitRoom {p : Pool} {m : Nat} (h : WK (ES m) p) : WK0 (p.waitRoom m) := by
+  obtain ⟨r, hp, ho⟩ := h.alive m rfl
+  have hw := (h.ce m rfl).2 r hp
+  unfold waitRoom
+  simp only [hp, Option.getD_some]
+  cases hmc : r.mustCancel
+  · simp only [Bool.false_eq_true, if_false]
+    refine wk0_close_spawner h _ [_] _ (by rfl) (by rfl)
+      (by exact fun i hi => modReq_get_ne _ _ _ _ hi) (by exact modReq_get_self _ _ _ r hp) ?_ ?_ ?_ ?_ ?_ ?_ ?_ ?_
+    · intro _; exact ⟨fun e => (by cases e), (by simp), (by simp)⟩
+    · simp
+    · intro w hw'
+      rw [List.mem_singleton] at hw'; subst hw'
+      exact ⟨rfl, rfl, ho, fun hn => absurd rfl hn⟩
+    · intro _ _; simp
+    · rw [hw]; simp
+    · intro w hw'; rw [hw] at hw'; cases hw'
+    · intro _ e; cases e
+    · intro e; rw [ho] at e; cases e
+  · simp only [if_true]
+    rw [modReq_schedMeta]
+    refine wk_emitRef (wk0_close_spawner h _ [_] _ (by rfl) (by rfl)
+      (by exact fun i hi => modReq_get_ne _ _ _ _ hi) (by exact modReq_get_self _ _ _ r hp) ?_ ?_ ?_ ?_ ?_ ?_ ?_ ?_) _
+    · intro _; exact ⟨fun _ => rfl, by simp, by simp⟩
+    · simp
+    · intro w hw'
+      rw [List.mem_singleton] at hw'; subst hw'
+      exact ⟨rfl, rfl, ho, fun _ => rfl⟩
+    · intro _ _; simp
+    · rw [hw]; simp
+    · intro w hw'; rw [hw] at hw'; cases hw'
+    · intro _ e; cases e
+    · intro e; rw [ho] at e; cases e
+
+theorem wk0_waitMapSem {p : Pool} {m : Nat} (h : WK (ES m) p) : WK0 (p.waitMapSem m) := by
+  obtain ⟨r, hp, ho⟩ := h.alive m rfl
+  have hw := (h.ce m rfl).2 r hp
+  unfold waitMapSem
+  simp only [hp, Option.getD_some]
+  cases hmc : r.mustCancel
+  · simp only [Bool.false_eq_true, if_false]
+    refine wk0_close_spawner h _ [] _ (by rfl) (by exact (List.append_nil _).symm)
+      (by exact fun i hi => modReq_get_ne _ _ _ _ hi) (by exact modReq_get_self _ _ _ r hp) ?_ ?_ ?_ ?_ ?_ ?_ ?_ ?_
+    · intro _; exact ⟨fun e => (by cases e), (by simp), (by simp)⟩
+    · simp
+    · intro w hw'; cases hw'
+    · intro _ e; cases e
+    · rw [hw]; simp
+    · intro w hw'
+      rw [hw, List.nil_append, List.mem_singleton] at hw'; subst hw'
+      exact ⟨rfl, rfl, ho, fun hn => absurd rfl hn⟩
+    · intro _ _; simp
+    · intro e; rw [ho] at e; cases e
+  · simp only [if_true]
+    rw [modReq_schedMeta]
+    refine wk_emitRef (wk0_close_spawner h _ [] _ (by rfl) (by exact (List.append_nil _).symm)
+      (by exact fun i hi => modReq_get_ne _ _ _ _ hi) (by exact modReq_get_self _ _ _ r hp) ?_ ?_ ?_ ?_ ?_ ?_ ?_ ?_) _
+    · intro _; exact ⟨fun _ => rfl, by simp, by simp⟩
+    · simp
+    · intro w hw'; cases hw'
+    · intro _ e; cases e
+    · rw [hw]; simp
+    · intro w hw'
+      rw [hw, List.nil_append, List.mem_singleton] at hw'; subst hw'
+      exact ⟨rfl, rfl, ho, fun _ => rfl⟩
+    · intro _ _; simp
+    · intro e; rw [ho] at e; cases e
 
 end Pool
 end Taskpool
